@@ -108,6 +108,58 @@ def make_e_reent(params, part, nparts):
 
 
 # ---------------------------------------------------------------------------
+# E tier: a mutator thread scheduled at every line boundary of the Python lookup code (vlib.traceprog family 'preempt')
+# ---------------------------------------------------------------------------
+
+def preempt_scenario(impl, prog, env=None):
+    p = _sib(impl, env)
+    what = '%s build, %s: %s interrupted at line event %d by a thread running %s' % (
+        impl, ['AdapterRegistry', 'VerifyingAdapterRegistry'][prog[0]], TP.PE_ENTRY[prog[1]], prog[3], TP.PE_MUT[prog[2]])
+    try:
+        p.stdin.write(json.dumps(dict(family='preempt', program=prog)) + '\n')
+        p.stdin.flush()
+        line = p.stdout.readline()
+    except (BrokenPipeError, OSError):
+        line = ''
+    if not line:
+        rc = p.poll()
+        _SIBS.pop(impl, None)
+        raise Violation('%s: the interpreter died (exit status %s)' % (what, rc), signature='C11:preempt:crash')
+    r = json.loads(line)
+    if 'error' in r:
+        raise Violation('%s: %s' % (what, r['error']), signature='C11:harness')
+    r = r['trace']
+    if r is None:
+        return False
+    what += ' (switch at %s)' % r['where']
+    site = r['where'].split(':')[0]
+    if r['exception'] is not None:
+        raise Violation('%s: the lookup raised %s; before the mutation it answers %r, after it %r' % (what, r['exception'], r['before'], r['after']),
+                        signature='C11:preempt:exception:%s:%s' % (site, r['exception'].split(':')[0]))
+    if r['result'] != r['before'] and r['result'] != r['after']:
+        raise Violation('%s: answered %r, which is correct neither before (%r) nor after (%r) the mutation' % (
+            what, r['result'], r['before'], r['after']), signature='C11:preempt:not-atomic:%s' % site)
+    if r['second'] != r['after']:
+        raise Violation('%s: the same lookup repeated afterwards answers %r, a registry in the mutated state answers %r' % (
+            what, r['second'], r['after']), signature='C11:preempt:stale:%s' % site)
+    return True
+
+
+def make_e_preempt(params, part, nparts):
+    NE, NM = len(TP.PE_ENTRY), len(TP.PE_MUT)
+    K = params.get('K', 120)
+
+    def h(fl: int, e: int, m: int, k: int):
+        ce, cm = pick(e, NE), pick(m, NM)
+        assume((ce * NM + cm) % nparts == part)
+        prog = [pick(fl, 2), ce, cm, pick(k, K)]
+        ok = native(preempt_scenario, params.get('impl', 'py'), prog)
+        assume(ok)
+        reached(tuple(prog), dict(schedule='%s | %s | k=%d' % (TP.PE_ENTRY[ce], TP.PE_MUT[cm], prog[3])))
+    return h
+
+
+# ---------------------------------------------------------------------------
 # E tier: lookups made from inside the change notification of a mutator ("changed() is the last step of every mutator")
 # ---------------------------------------------------------------------------
 
@@ -485,6 +537,21 @@ HARNESSES = [
             outside='notifications observed from other threads at finer grain than the changed() hook (the hook is the only point at which the '
                     'mutators call out)',
             oracle='registries built afterwards with the same registrations and no earlier lookups'),
+    Harness('e_preempt', make_e_preempt, kind='E', impls=('py',),
+            tiers=dict(quick=dict(budget_s=150, parts=14, params=dict(K=120, impl='py')), thorough=dict(budget_s=600, parts=14, params=dict(K=120, impl='py'))),
+            encoded=['zope.interface.adapter:AdapterLookupBase._uncached_lookup', 'zope.interface.adapter:AdapterLookupBase._uncached_lookupAll',
+                     'zope.interface.adapter:AdapterLookupBase._uncached_subscriptions', 'zope.interface.adapter:_lookup',
+                     'zope.interface.adapter:_lookupAll', 'zope.interface.adapter:_subscriptions',
+                     'zope.interface.adapter:AdapterLookupBase.remove_extendor', 'zope.interface.adapter:AdapterLookupBase.add_extendor',
+                     'zope.interface.adapter:BaseAdapterRegistry.unregister', 'zope.interface.adapter:BaseAdapterRegistry.unsubscribe'],
+            bounds='thread schedules of one lookup thread against one mutator thread under the GIL: the lookup (7 entry/key shapes of arity 1 and 2, both '
+                   'registry flavours) runs to its k-th line event inside zope/interface/adapter.py (every k up to the end of the call, <= 120), '
+                   'the mutator then runs one whole mutator call (9 kinds: the last registration / subscription of an arity or of a provided '
+                   'interface, a more specific registration, the answering registration, ...), the lookup resumes; pure-Python lookup layer',
+            outside='switches inside the mutator (two half-done mutators); more than one switch per lookup; bytecode boundaries inside one line; '
+                    'the C cache layer (covered at its callback points by e_reent / ir_lookup)',
+            oracle='no exception; the answer is the one before or the one after the mutation (twin registries); the repeated call gives the after-answer',
+            stubs=['sys.settrace line events as the schedule: the mutator runs inside the trace callback of the k-th line']),
     Harness('s_py_atomic', make_s_py_atomic, kind='S', impls=('py',),
             tiers=dict(quick=dict(budget_s=120, parts=4, ppt=40, params={}), thorough=dict(budget_s=900, parts=4, ppt=60, params={})),
             encoded=_ENC[2:8],
